@@ -159,7 +159,7 @@ def plan(tier, seed, scale):
     for i in range(1 if tier == "quick" else 4):
         tasks.append({"name": "covfuzz-%d" % i, "kind": "covfuzz", "shard": i,
                       "runs": int((4000 if tier == "quick" else 150000) * scale)})
-    total = int((16000 if tier == "quick" else 500000) * scale)
+    total = int((16000 if tier == "quick" else 150000) * scale)
     for i in range(K):
         tasks.append({"name": "rand-%d" % i, "kind": "rand", "n": max(total // K, 10),
                       "depth": 4 if tier == "quick" else 5, "shard": i})
